@@ -35,7 +35,7 @@ def make_jobs(ctx, n_defs, n_points, ks=(None,), rational_every=2, **genkw):
     for i in range(n_defs):
         kw = dict(min_sensors=1, max_sensors=2, max_states=4, max_readings=3)
         kw.update(genkw)
-        d = M.gen_definition(ctx.rng, rational=(i % rational_every == 0), force_bilinear=(i % 8 == 3), **kw)
+        d = M.gen_definition(ctx.rng, rational=(i % rational_every == 0), force_bilinear=(i % 8 == 3), tiny_sensor_noise=True, **kw)
         decl = {"container": ctx.rng.choice(["set", "list"]), "perm_seed": ctx.rng.randint(0, 10**6)}
         jobs.append({"defn": d, "cse": bool(i % 3 != 1), "k": ks[i % len(ks)], "decl": decl, "points": make_points(ctx.rng, d, n_points)})
     return jobs
